@@ -41,6 +41,7 @@ RULE = ('grid: nensembles 1..8 x nprocesses 1..8 x noise_mode {single, flip} x e
 
 MODEL_DRAW = 'parent'        # where the modelled code draws the member noise ('fork' = pinned code, inside the worker)
 LEVELS = [0.0, 0.05, 2.0]
+IMPL_TIMEOUT = 20          # seconds per traced call (normal calls take < 0.3 s)
 
 
 # ----------------------------------------------------------------------------- tracing
@@ -76,7 +77,8 @@ def _traced_call(case, fn):
         msg = ''
         try:
             np.random.seed(case['seed'])
-            res = fn(emd)
+            with _msk.time_limit(IMPL_TIMEOUT):
+                res = fn(emd)
         except Exception as e:  # noqa
             from common.framework import err_kind
             err, msg = err_kind(e), repr(e)[-300:]
